@@ -802,3 +802,10 @@ package memefish
 // @ func memefish.(*Parser).parseSequenceParams
 // @   inherit parsernp
 // @   loop 0 invariant[C06] exactl: len(p.errors) == old(len(p.errors)) ==> spans(params, old(p.Lexer.Token.Pos), trivStart(p.Lexer)) && (len(params) == 0 ==> lexUnmoved(p, old(p.Lexer.Token.Pos), old(trivStart(p.Lexer))))
+
+// ---------------------------------------------------------------------------------------------
+// Ordering facts that a loop must carry (C05): a child parsed before the loop lies before the list the
+// loop builds.
+// @ func memefish.(*Parser).parseCaseExpr
+// @   inherit parser
+// @   loop 0 invariant[C05] order: len(whens) >= 1 && pos < $pos(whens[0]) && (isNil(expr) || (pos < $pos(expr) && $end(expr) <= $pos(whens[0])))
